@@ -665,3 +665,270 @@ Proof.
     + apply DSS_intro. constructor; try assumption. intros _ X. subst l'. destruct l; [contradiction|discriminate Ll].
     + cbn [g_selset gl gnl lay_selset]. rewrite El, Ll. split; reflexivity.
 Qed.
+
+(* ---- variable definitions ---- *)
+Lemma lay_value_nonnil : forall v, lay_value v <> [].
+Proof. intros [n l|s l|s l|s l|b l|s l|vs l|fs l]; cbn [lay_value]; unfold T; try discriminate. destruct b; discriminate. Qed.
+
+Definition dflt_part (dv : option value) : layout := match dv with Some d => lay_value d | None => [] end.
+Definition eq_wrap : layout := sp ++ T EQUALS ++ sp.
+
+Lemma default_rt : forall pv dv, DOpt DDefault pv dv -> toks_wf pv ->
+  P1 (lwrap eq_wrap (dflt_part dv) []) /\
+  forall ts, map sig ts = ltoks (lwrap eq_wrap (dflt_part dv) []) ->
+    exists dv', DOpt DDefault ts dv' /\ gnl (gopt g_value dv') = gnl (gopt g_value dv) /\ dflt_part dv' = dflt_part dv.
+Proof.
+  intros pv dv D W. destruct D as [|pv v Dd].
+  - split; [apply P1_nil|]. intros ts H. cbn in H. apply map_eq_nil in H. subst. exists None. split; [constructor|split; reflexivity].
+  - destruct Dd as [e pv v Ke Dv]. apply toks_wf_cons in W. destruct W as [_ W].
+    destruct (value_rt _ true pv v (le_n _) Dv W) as [Pv Rv]. cbn [dflt_part]. split.
+    + apply lwrap_P1_open; [|exact Pv]. unfold eq_wrap, sp, T. cbn [app].
+      apply P0_sep; [reflexivity|]. apply P0_punct; [reflexivity|]. apply P0_sep; [reflexivity|apply P0_nil].
+    + intros ts H. rewrite ltoks_lwrap in H. pose proof (lay_value_nonnil v) as Nv.
+      destruct (lay_value v) as [|x lv] eqn:E; [contradiction|]. cbn [is_nil] in H. rewrite <- E in *. clear E.
+      unfold eq_wrap, sp, T in H. cbn [app ltoks tokval] in H. rewrite app_nil_r in H.
+      apply map_eq_cons in H. destruct H as (e' & tv & -> & Se & H). apply sig_inv in Se. destruct Se as [Ke' _].
+      destruct (Rv tv H) as (v' & Dv' & Ev & Lv).
+      exists (Some v'). split; [constructor; constructor; assumption|]. cbn [gopt dflt_part]. split; assumption.
+Qed.
+
+Lemma lay_vardef_eq : forall v, lay_vardef v =
+  PTok DOLLAR [] :: Nm (vd_var v) ++ PTok COLON [] :: PSep [32] :: lay_type (vd_type v) ++ lwrap eq_wrap (dflt_part (vd_default v)) [].
+Proof. reflexivity. Qed.
+Lemma lay_vardef_nonnil : forall v, lay_vardef v <> [].
+Proof. intro v. rewrite lay_vardef_eq. discriminate. Qed.
+
+Lemma vardef_rt : forall p v, DVarDef p v -> toks_wf p -> P1 (lay_vardef v) /\ Rb DVarDef lay_vardef g_vardef v.
+Proof.
+  intros p v D W. destruct D as [d n c pt t pv dv Kd Kn Kc Dt Dv].
+  apply toks_wf_cons in W. destruct W as [_ W]. apply toks_wf_cons in W. destruct W as [Wn W].
+  apply toks_wf_cons in W. destruct W as [_ W]. apply toks_wf_app in W. destruct W as [Wt Wv].
+  destruct (type_rt _ _ Dt Wt) as [Pt Rt]. destruct (default_rt _ _ Dv Wv) as [Pd Rd].
+  rewrite lay_vardef_eq. cbn [vd_var vd_type vd_default]. unfold Nm, tok_name. cbn [nval app]. split.
+  - apply P1_punct; [reflexivity|]. apply P1_wordy; [apply name_tok_wf; assumption| |apply SFs_SF; apply SFs_punct; reflexivity].
+    apply P1_punct; [reflexivity|]. apply P1_sep; [reflexivity|].
+    apply P1_app1; [exact Pt|exact Pd|]. apply lwrap_SF. unfold eq_wrap, sp. cbn [app]. apply SFs_sep. reflexivity.
+  - intros ts Hts. rewrite lay_vardef_eq in Hts. cbn [vd_var vd_type vd_default] in Hts. unfold Nm, tok_name in Hts.
+    cbn [nval app ltoks tokval] in Hts. rewrite ltoks_app in Hts.
+    apply map_eq_cons in Hts. destruct Hts as (d' & tl & -> & Sd & Hts). apply sig_inv in Sd. destruct Sd as [Kd' _].
+    apply map_eq_cons in Hts. destruct Hts as (n' & tl2 & -> & Sn & Hts). apply sig_inv in Sn. destruct Sn as [Kn' Vn'].
+    apply map_eq_cons in Hts. destruct Hts as (c' & tl3 & -> & Sc & Hts). apply sig_inv in Sc. destruct Sc as [Kc' _].
+    apply map_eq_app in Hts. destruct Hts as (tt & tv & -> & Htt & Htv).
+    destruct (Rt tt Htt) as (t' & Dt' & Et & Lt). destruct (Rd tv Htv) as (dv' & Dv' & Ev & Lv).
+    exists (mkvardef (tok_name n') (span [d'; n']) t' dv' (span (d' :: n' :: c' :: tt ++ tv))). split; [constructor; assumption|].
+    rewrite !lay_vardef_eq. unfold g_vardef. cbn [vd_var vd_varloc vd_type vd_default vd_loc gl gnl map g_name].
+    unfold Nm, tok_name. cbn [nval]. rewrite Vn', Et, Ev, Lt, Lv. split; reflexivity.
+Qed.
+
+Definition lay_vardefs (l : list vardef) : layout := lay_opt lay_vardef PAREN_L PAREN_R comma_sp l.
+
+Lemma vardefs_rt : forall p l, DVarDefs p l -> toks_wf p ->
+  P1 (lay_vardefs l) /\ SF (lay_vardefs l) /\
+  forall ts, map sig ts = ltoks (lay_vardefs l) ->
+    exists l', DVarDefs ts l' /\ map gnl (map g_vardef l') = map gnl (map g_vardef l) /\ lay_vardefs l' = lay_vardefs l.
+Proof.
+  intros p l D W. pose proof (optdelim_elems _ _ _ _ _ _ D W) as X.
+  assert (E : Forall (fun a => P1 (lay_vardef a) /\ Rb DVarDef lay_vardef g_vardef a) l).
+  { eapply Forall_impl; [|exact X]. intros a (q & Dq & _ & Wq). apply (vardef_rt q a Dq Wq). }
+  split; [|split].
+  - apply optdelim_P1; try reflexivity. eapply Forall_impl; [|exact E]. intros a [Ha _]. exact Ha.
+  - apply optdelim_SF; reflexivity.
+  - intros ts Hts.
+    destruct (optdelim_reloc DVarDef lay_vardef g_vardef PAREN_L PAREN_R comma_sp eq_refl eq_refl lay_vardef_nonnil l
+                ltac:(eapply Forall_impl; [|exact E]; intros a [_ Ha]; exact Ha) ts Hts) as (l' & D' & E' & L').
+    exists l'. split; [exact D'|]. split; [exact E'|]. unfold lay_vardefs, lay_opt. rewrite L'. reflexivity.
+Qed.
+
+(* ---- operations ---- *)
+Definition name_part (nm : option name) : layout := match nm with Some n => Nm n | None => [] end.
+
+Lemma lay_op_eq : forall o, lay_op o =
+  if is_nil (name_part (op_name o)) && is_nil (lay_dirs (op_dirs o)) && is_nil (lay_vardefs (op_vars o)) && is_query (op_type o)
+  then lay_selset (op_sel o)
+  else ljoin [ [PTok NAME (optype_name (op_type o))]; name_part (op_name o) ++ lay_vardefs (op_vars o);
+               lay_dirs (op_dirs o); lay_selset (op_sel o) ] [32].
+Proof. reflexivity. Qed.
+
+Lemma optype_of_name : forall op, optype_of (optype_name op) = Some op.
+Proof. destruct op; reflexivity. Qed.
+Lemma optype_name_of : forall v op, optype_of v = Some op -> v = optype_name op.
+Proof.
+  intros v op H. unfold optype_of in H.
+  destruct (bytes_eqb v (kw "query")) eqn:E1; [apply bytes_eqb_eq in E1; inversion H; subst; reflexivity|].
+  destruct (bytes_eqb v (kw "mutation")) eqn:E2; [apply bytes_eqb_eq in E2; inversion H; subst; reflexivity|].
+  destruct (bytes_eqb v (kw "subscription")) eqn:E3; [apply bytes_eqb_eq in E3; inversion H; subst; reflexivity|discriminate].
+Qed.
+Lemma optype_name_ok : forall op, name_ok (optype_name op) = true.
+Proof. destruct op; reflexivity. Qed.
+
+Lemma is_nil_true : forall A (l : list A), is_nil l = true -> l = [].
+Proof. intros A [|x l] H; [reflexivity|discriminate]. Qed.
+
+Lemma lay_dirs_nil : forall dirs, is_nil (lay_dirs dirs) = is_nil dirs.
+Proof. intro dirs. unfold lay_dirs. apply ljoin_map_nil. apply lay_dir_nonnil. Qed.
+Lemma lay_vardefs_nil : forall vds, is_nil (lay_vardefs vds) = is_nil vds.
+Proof.
+  intro vds. unfold lay_vardefs, lay_opt, lwrap. rewrite (ljoin_map_nil _ lay_vardef vds comma_sp lay_vardef_nonnil).
+  destruct vds; reflexivity.
+Qed.
+
+Definition g_op (o : opdef) : gt := g_def (DOp o).
+
+Lemma op_rt : forall p o, DOperation p o -> toks_wf p ->
+  P1 (lay_op o) /\
+  forall ts, map sig ts = ltoks (lay_op o) -> exists o', DOperation ts o' /\ gnl (g_op o') = gnl (g_op o) /\ lay_op o' = lay_op o.
+Proof.
+  intros p o D W. destruct D as [p ss Ds | k op pn nm pv vds pd dirs ps ss Kk Ho Dn Dv Dd Ds].
+  - destruct (selset_rt _ p ss (le_n _) Ds W) as [Ps Rs].
+    change (lay_op (mkopdef Query None [] [] ss (span p))) with (lay_selset ss). split; [apply P0_P1; exact Ps|].
+    intros ts Hts. destruct (Rs ts Hts) as (ss' & Ds' & Es & Ls).
+    exists (mkopdef Query None [] [] ss' (span ts)). split; [apply DO_short; exact Ds'|]. split.
+    + unfold g_op. cbn [g_def op_type op_name op_vars op_dirs op_sel op_loc gl gnl map gopt glist g_dirs]. rewrite Es. reflexivity.
+    + change (lay_op (mkopdef Query None [] [] ss' (span ts))) with (lay_selset ss'). exact Ls.
+  - apply toks_wf_cons in W. destruct W as [_ W]. apply toks_wf_app in W. destruct W as [Wn W].
+    apply toks_wf_app in W. destruct W as [Wv W]. apply toks_wf_app in W. destruct W as [Wd Ws].
+    destruct (vardefs_rt _ _ Dv Wv) as (Pv & Sv & Rv). destruct (dirs_rt _ _ Dd Wd) as (Pd & Sd & Rd).
+    destruct (selset_rt _ ps ss (le_n _) Ds Ws) as [Ps Rs].
+    assert (NP : P1 (name_part nm ++ lay_vardefs vds) /\
+                 forall tn, map sig tn = ltoks (name_part nm) ->
+                   exists nm', DOpt DName tn nm' /\ gnl (gopt g_name nm') = gnl (gopt g_name nm) /\ name_part nm' = name_part nm).
+    { destruct Dn as [|pn n0 Dn0].
+      - split; [exact Pv|]. intros tn H. cbn in H. apply map_eq_nil in H. subst. exists None. split; [constructor|split; reflexivity].
+      - destruct Dn0 as [t Kt]. apply toks_wf_cons in Wn. destruct Wn as [Wt _]. cbn [name_part]. unfold Nm, tok_name. cbn [nval app]. split.
+        + apply P1_wordy; [apply name_tok_wf; assumption|exact Pv|exact Sv].
+        + intros tn H. cbn [ltoks tokval] in H. sigs H. exists (Some (tok_name t0)). split; [constructor; constructor; assumption|].
+          unfold tok_name, Nm. cbn [gopt g_name gl gnl map nval name_part]. rewrite V. split; reflexivity. }
+    destruct NP as [Pn Rn].
+    rewrite lay_op_eq. cbn [op_type op_name op_vars op_dirs op_sel].
+    destruct (is_nil (name_part nm) && is_nil (lay_dirs dirs) && is_nil (lay_vardefs vds) && is_query op) eqn:C.
+    + (* printed in the short form *)
+      apply andb_true_iff in C. destruct C as [C C4]. apply andb_true_iff in C. destruct C as [C C3]. apply andb_true_iff in C. destruct C as [C1 C2].
+      rewrite lay_dirs_nil in C2. rewrite lay_vardefs_nil in C3. apply is_nil_true in C2. apply is_nil_true in C3. subst dirs vds.
+      assert (nm = None) by (destruct nm; [discriminate C1|reflexivity]). subst nm.
+      assert (op = Query) by (destruct op; try discriminate C4; reflexivity). subst op.
+      split; [apply P0_P1; exact Ps|].
+      intros ts Hts. destruct (Rs ts Hts) as (ss' & Ds' & Es & Ls).
+      exists (mkopdef Query None [] [] ss' (span ts)). split; [apply DO_short; exact Ds'|]. split.
+      * unfold g_op. cbn [g_def op_type op_name op_vars op_dirs op_sel op_loc gl gnl map gopt glist g_dirs]. rewrite Es. reflexivity.
+      * change (lay_op (mkopdef Query None [] [] ss' (span ts))) with (lay_selset ss'). exact Ls.
+    + split.
+      * apply ljoin_P1; [reflexivity|]. repeat constructor; try assumption.
+        -- apply P1_wordy_last. apply optype_name_ok.
+        -- apply P0_P1; exact Ps.
+      * intros ts Hts. rewrite ltoks_ljoin in Hts. cbn [flat_map] in Hts. rewrite app_nil_r, ltoks_app in Hts. cbn [ltoks tokval app] in Hts.
+        apply map_eq_cons in Hts. destruct Hts as (k' & tl & -> & Sk & Hts). apply sig_inv in Sk. destruct Sk as [Kk' Vk'].
+        rewrite <- app_assoc in Hts.
+        apply map_eq_app in Hts. destruct Hts as (tn & t2 & -> & Htn & Ht2).
+        apply map_eq_app in Ht2. destruct Ht2 as (tv & t3 & -> & Htv & Ht3).
+        apply map_eq_app in Ht3. destruct Ht3 as (td & tsel & -> & Htd & Htsel).
+        destruct (Rn tn Htn) as (nm' & Dn' & En & Ln). destruct (Rv tv Htv) as (vds' & Dv' & Ev & Lv).
+        destruct (Rd td Htd) as (dirs' & Dd' & Ed & Ld). destruct (Rs tsel Htsel) as (ss' & Ds' & Es & Ls).
+        exists (mkopdef op nm' vds' dirs' ss' (span (k' :: tn ++ tv ++ td ++ tsel))). split.
+        { apply DO_full; try assumption. rewrite Vk'. apply optype_of_name. }
+        split.
+        { unfold g_op. cbn [g_def op_type op_name op_vars op_dirs op_sel op_loc gl gnl map glist g_dirs]. rewrite En, Ev, Ed, Es. reflexivity. }
+        { rewrite lay_op_eq. cbn [op_type op_name op_vars op_dirs op_sel]. rewrite Ln, Lv, Ld, Ls, C. reflexivity. }
+Qed.
+
+(* ---- fragment definitions ---- *)
+Lemma lay_frag_eq : forall f, lay_frag f =
+  PTok NAME (kw "fragment") :: PSep [32] :: PTok NAME (nval (fr_name f)) :: PSep [32] :: PTok NAME (kw "on") :: PSep [32] ::
+  PTok NAME (nval (nd_name (fr_cond f))) :: PSep [32] :: lwrap [] (lay_dirs (fr_dirs f)) sp ++ lay_selset (fr_sel f).
+Proof. reflexivity. Qed.
+
+Lemma frag_rt : forall p f, DFragment p f -> toks_wf p ->
+  P1 (lay_frag f) /\
+  forall ts, map sig ts = ltoks (lay_frag f) -> exists f', DFragment ts f' /\ gnl (g_def (DFrag f')) = gnl (g_def (DFrag f)) /\ lay_frag f' = lay_frag f.
+Proof.
+  intros p f D W. destruct D as [fk pn n o t pd dirs ps ss Kf Vf Dn Ko Vo Kt Dd Ds].
+  destruct Dn as [tn Ktn Vtn].
+  apply toks_wf_cons in W. destruct W as [_ W]. apply toks_wf_cons in W. destruct W as [Wtn W].
+  apply toks_wf_cons in W. destruct W as [_ W]. apply toks_wf_cons in W. destruct W as [Wt W].
+  apply toks_wf_app in W. destruct W as [Wd Ws].
+  destruct (dirs_rt _ _ Dd Wd) as (Pd & Sd & Rd). destruct (selset_rt _ ps ss (le_n _) Ds Ws) as [Ps Rs].
+  rewrite lay_frag_eq. cbn [fr_name fr_cond fr_dirs fr_sel]. unfold tok_named, tok_name. cbn [nd_name nval]. split.
+  - apply P1_wordy; [reflexivity| |apply SFs_SF; apply SFs_sep; reflexivity]. apply P1_sep; [reflexivity|].
+    apply P1_wordy; [apply name_tok_wf; assumption| |apply SFs_SF; apply SFs_sep; reflexivity]. apply P1_sep; [reflexivity|].
+    apply P1_wordy; [reflexivity| |apply SFs_SF; apply SFs_sep; reflexivity]. apply P1_sep; [reflexivity|].
+    apply P1_wordy; [apply name_tok_wf; assumption| |apply SFs_SF; apply SFs_sep; reflexivity]. apply P1_sep; [reflexivity|].
+    apply P1_app1; [|apply P0_P1; exact Ps|apply SFs_SF; apply lay_selset_SFs].
+    apply lwrap_P1; [apply P0_nil|exact Pd|apply P0_sep; [reflexivity|apply P0_nil]|apply SFs_sep; reflexivity].
+  - intros ts Hts. cbn [ltoks tokval] in Hts. rewrite ltoks_app in Hts.
+    rewrite (ltoks_lwrap_sep [] (lay_dirs dirs) sp eq_refl eq_refl) in Hts.
+    apply map_eq_cons in Hts. destruct Hts as (f' & tl & -> & Sf & Hts). apply sig_inv in Sf. destruct Sf as [Kf' Vf'].
+    apply map_eq_cons in Hts. destruct Hts as (n' & tl2 & -> & Sn & Hts). apply sig_inv in Sn. destruct Sn as [Kn' Vn'].
+    apply map_eq_cons in Hts. destruct Hts as (o' & tl3 & -> & So & Hts). apply sig_inv in So. destruct So as [Ko' Vo'].
+    apply map_eq_cons in Hts. destruct Hts as (t' & tl4 & -> & St & Hts). apply sig_inv in St. destruct St as [Kt' Vt'].
+    apply map_eq_app in Hts. destruct Hts as (td & tsel & -> & Htd & Htsel).
+    destruct (Rd td Htd) as (dirs' & Dd' & Ed & Ld). destruct (Rs tsel Htsel) as (ss' & Ds' & Es & Ls).
+    exists (mkfragdef (tok_name n') (tok_named t') dirs' ss' (span (f' :: [n'] ++ o' :: t' :: td ++ tsel))). split.
+    { apply (DF_intro f' [n'] (tok_name n') o' t' td dirs' tsel ss'); try assumption. constructor; [exact Kn'|rewrite Vn'; exact Vtn]. }
+    split.
+    { cbn [g_def fr_name fr_cond fr_dirs fr_sel fr_loc gl gnl map g_name g_named g_dirs glist]. unfold tok_named, tok_name.
+      cbn [nd_name nd_loc nval nloc]. rewrite Vn', Vt', Ed, Es. reflexivity. }
+    { rewrite lay_frag_eq. cbn [fr_name fr_cond fr_dirs fr_sel]. unfold tok_named, tok_name. cbn [nd_name nval]. rewrite Vn', Vt', Ld, Ls. reflexivity. }
+Qed.
+
+(* ---- definitions and documents ---- *)
+Lemma gnl_def_exec : forall a b, gnl (g_def a) = gnl (g_def b) -> is_exec a = is_exec b.
+Proof.
+  intros a b H. destruct a, b; cbn [g_def g_objdef gl gnl is_exec] in *; try discriminate H; reflexivity.
+Qed.
+
+Lemma def_rt : forall p d, DDefinition p d -> is_exec d = true -> toks_wf p ->
+  P1 (lay_def d) /\ Rb DDefinition lay_def g_def d.
+Proof.
+  intros p d D E W. destruct D as [p o Do|p f Df|p d Dt].
+  - destruct (op_rt _ _ Do W) as [Po Ro]. split; [exact Po|]. intros ts Hts. destruct (Ro ts Hts) as (o' & Do' & Eo & Lo).
+    exists (DOp o'). split; [apply DD_op; exact Do'|]. split; [exact Eo|exact Lo].
+  - destruct (frag_rt _ _ Df W) as [Pf Rf]. split; [exact Pf|]. intros ts Hts. destruct (Rf ts Hts) as (f' & Df' & Ef & Lf).
+    exists (DFrag f'). split; [apply DD_frag; exact Df'|]. split; [exact Ef|exact Lf].
+  - rewrite (typesystem_not_exec _ _ Dt) in E. discriminate E.
+Qed.
+
+Definition erase_loc (d : document) : gt := gnl (g_doc d).
+
+Lemma map_gnl_exec : forall l' l, map gnl (map g_def l') = map gnl (map g_def l) -> forallb is_exec l' = forallb is_exec l.
+Proof.
+  induction l' as [|a l' IH]; intros [|b l] H; try discriminate H; [reflexivity|]. cbn [map] in H. inversion H.
+  cbn [forallb]. rewrite (gnl_def_exec _ _ H1), (IH l H2). reflexivity.
+Qed.
+
+Theorem doc_rt : forall ts d, Derives ts d -> exec_only d = true -> toks_wf ts ->
+  layout_wfb (lay_doc d) = true /\
+  forall tx e, map sig tx = ltoks (lay_doc d) -> tk e = EOF ->
+    exists d', Derives (tx ++ [e]) d' /\ erase_loc d' = erase_loc d /\ lay_doc d' = lay_doc d /\ exec_only d' = true.
+Proof.
+  intros ts d D E W. destruct D as [p defs e0 Ds Hne Ke]. unfold exec_only in E. cbn [doc_defs] in E.
+  apply toks_wf_app in W. destruct W as [W _].
+  assert (X : Forall (fun a => P1 (lay_def a) /\ Rb DDefinition lay_def g_def a) defs).
+  { pose proof (star_elems _ _ _ Ds W) as X. rewrite forallb_forall in E. apply Forall_forall. intros a Ha.
+    rewrite Forall_forall in X. destruct (X a Ha) as (q & Dq & _ & Wq). apply (def_rt q a Dq (E a Ha) Wq). }
+  split.
+  - unfold lay_doc. cbn [doc_defs].
+    assert (P : P0 (ljoin (map lay_def defs) [10; 10] ++ [PSep [10]])).
+    { apply P0_app1; [|apply P0_sep; [reflexivity|apply P0_nil]|apply SFs_sep; reflexivity].
+      apply ljoin_P1; [reflexivity|]. rewrite Forall_map. eapply Forall_impl; [|exact X]. intros a [Ha _]. exact Ha. }
+    specialize (P [] eq_refl). rewrite app_nil_r in P. exact P.
+  - intros tx e Htx Ke'. unfold lay_doc in Htx. cbn [doc_defs] in Htx. rewrite ltoks_app, ltoks_ljoin in Htx. cbn [ltoks] in Htx.
+    rewrite app_nil_r in Htx.
+    destruct (star_reloc DDefinition lay_def g_def defs ltac:(eapply Forall_impl; [|exact X]; intros a [_ Ha]; exact Ha) tx Htx)
+      as (defs' & D' & E' & L').
+    exists (mkdoc defs' (span (tx ++ [e]))). split; [|split; [|split]].
+    + constructor; [exact D'| |exact Ke']. intro Z. subst defs'. destruct defs; [contradiction Hne; reflexivity|discriminate L'].
+    + unfold erase_loc. cbn [g_doc doc_defs doc_loc gl gnl]. rewrite E'. reflexivity.
+    + unfold lay_doc. cbn [doc_defs]. rewrite L'. reflexivity.
+    + unfold exec_only. cbn [doc_defs]. rewrite (map_gnl_exec _ _ E'). exact E.
+Qed.
+
+(* print, lex, parse: an executable document whose tokens carry well-formed lexemes *)
+Theorem roundtrip_exec_tokens : forall ts d, parse_tokens ts = Ok d -> exec_only d = true -> toks_wf ts ->
+  exists d', parse (print_doc d) = Ok (d', false) /\ erase_loc d' = erase_loc d /\ print_doc d' = print_doc d.
+Proof.
+  intros ts d Hp E W. apply parse_tokens_sound in Hp.
+  destruct (doc_rt ts d Hp E W) as [Lw R].
+  pose proof (lex_flat_layout (lay_doc d) Lw) as Hl.
+  destruct (R (ptoks 0 (lay_doc d)) (eof_tok (nlen (flat (lay_doc d)))) (sig_ptoks _ _) eq_refl) as (d' & D' & Ed & Ld & Ex).
+  exists d'. split; [|split; [exact Ed|unfold print_doc; rewrite Ld; reflexivity]].
+  unfold parse, print_doc. rewrite Hl. rewrite (parse_tokens_complete_exec _ _ D' Ex). reflexivity.
+Qed.
